@@ -225,6 +225,11 @@ func matchElement(segs []Segment, name string) bool {
 	if len(name) > 0 && name[0] == '.' && IsWild(segs[0]) && !segs[0].(Wild).MatchHidden {
 		return false
 	}
+	return matchSegments(segs, name)
+}
+
+// matchSegments is matchElement without the check for hidden files.
+func matchSegments(segs []Segment, name string) bool {
 segs:
 	for len(segs) > 0 {
 		// Find a chunk. A chunk is an optional Star followed by a run of
@@ -245,6 +250,13 @@ segs:
 		}
 		segs = segs[i:]
 
+		// Taking the first position where this chunk matches is enough when
+		// the next chunk starts with an unrestricted star, which can absorb
+		// whatever a later position would have left to this chunk's star. A
+		// star restricted by matchers cannot, so later positions have to be
+		// tried as well when the rest of the segments fails to match.
+		backtrack := len(segs) > 0 && len(segs[0].(Wild).Matchers) > 0
+
 		// TODO: Implement a quick path when len(segs) == 0 by matching
 		// backwards.
 
@@ -252,8 +264,12 @@ segs:
 		// make sure name is exhausted by the matching.
 		ok, rest := matchFixedLength(chunk, name)
 		if ok && (rest == "" || len(segs) > 0) {
-			name = rest
-			continue
+			if !backtrack {
+				name = rest
+				continue
+			} else if matchSegments(segs, rest) {
+				return true
+			}
 		}
 
 		if startsWithStar {
@@ -268,8 +284,12 @@ segs:
 				}
 				ok, rest := matchFixedLength(chunk, name[j:])
 				if ok && (rest == "" || len(segs) > 0) {
-					name = rest
-					continue segs
+					if !backtrack {
+						name = rest
+						continue segs
+					} else if matchSegments(segs, rest) {
+						return true
+					}
 				}
 				i = j
 			}
